@@ -363,10 +363,6 @@ func (fr *Frame) appendBuiltin(b *ssa.BasicBlock, c *ssa.CallCommon, args []Val,
 	if k, ok := constLen(tlen); ok && k == 0 {
 		return &Val{T: resT, S: s}
 	}
-	slen := vc.def(bvSort(64), "alen", app("g_slen", s))
-	n := vc.def(bvSort(64), "anew", app("bvadd", slen, tlen))
-	inplace := vc.def("Bool", "inplace", app("bvsle", n, app("g_scap", s)))
-	// source elements
 	var srcAt func(j string) string
 	if tIsString {
 		srcAt = func(j string) string { return app("g_strat", t, j) }
@@ -374,6 +370,17 @@ func (fr *Frame) appendBuiltin(b *ssa.BasicBlock, c *ssa.CallCommon, args []Val,
 		tarr := vc.def("(Array (_ BitVec 64) "+es+")", "tarr", vc.readCell(st, key, app("g_sarr", t)))
 		srcAt = func(j string) string { return fmt.Sprintf("(select %s (bvadd (g_soff %s) %s))", tarr, t, j) }
 	}
+	return &Val{T: resT, S: vc.appendCore(st, et, s, tlen, srcAt)}
+}
+
+// appendCore models append(s, t...) for a source of length tlen whose j-th
+// element is srcAt(j); returns the resulting slice term.
+func (vc *VC) appendCore(st *State, et types.Type, s, tlen string, srcAt func(j string) string) string {
+	es := vc.sorts().sortOf(et)
+	key := vc.elemKey(et)
+	slen := vc.def(bvSort(64), "alen", app("g_slen", s))
+	n := vc.def(bvSort(64), "anew", app("bvadd", slen, tlen))
+	inplace := vc.def("Bool", "inplace", app("bvsle", n, app("g_scap", s)))
 	sarr := vc.def("(Array (_ BitVec 64) "+es+")", "sarr", vc.readCell(st, key, app("g_sarr", s)))
 	newRef := vc.alloc(st)
 	newCap := vc.fresh(bvSort(64), "newcap")
@@ -395,11 +402,12 @@ func (fr *Frame) appendBuiltin(b *ssa.BasicBlock, c *ssa.CallCommon, args []Val,
 		}
 	} else {
 		inArr = vc.fresh("(Array (_ BitVec 64) "+es+")", "apparr")
-		vc.assume(fmt.Sprintf("(forall ((g_j (_ BitVec 64))) (! (=> (not (and (bvule (bvadd (g_soff %s) %s) g_j) (bvult g_j (bvadd (g_soff %s) %s)))) (= (select %s g_j) (select %s g_j))) :pattern ((select %s g_j))))", s, slen, s, n, inArr, sarr, inArr))
-		vc.assume(fmt.Sprintf("(forall ((g_j (_ BitVec 64))) (! (=> (bvult g_j %s) (= (select %s (bvadd (g_soff %s) (bvadd %s g_j))) %s)) :pattern (%s)))", tlen, inArr, s, slen, srcAt("g_j"), srcAt("g_j")))
+		base := fmt.Sprintf("(bvadd (g_soff %s) %s)", s, slen)
+		vc.assume(fmt.Sprintf("(forall ((g_j (_ BitVec 64))) (! (= (select %s g_j) (ite (and (bvule %s g_j) (bvult g_j (bvadd (g_soff %s) %s))) %s (select %s g_j))) :pattern ((select %s g_j))))",
+			inArr, base, s, n, srcAt("(bvsub g_j "+base+")"), sarr, inArr))
 		frArr = vc.fresh("(Array (_ BitVec 64) "+es+")", "apparr")
-		vc.assume(fmt.Sprintf("(forall ((g_j (_ BitVec 64))) (! (=> (bvult g_j %s) (= (select %s g_j) (select %s (bvadd (g_soff %s) g_j)))) :pattern ((select %s g_j))))", slen, frArr, sarr, s, frArr))
-		vc.assume(fmt.Sprintf("(forall ((g_j (_ BitVec 64))) (! (=> (bvult g_j %s) (= (select %s (bvadd %s g_j)) %s)) :pattern (%s)))", tlen, frArr, slen, srcAt("g_j"), srcAt("g_j")))
+		vc.assume(fmt.Sprintf("(forall ((g_j (_ BitVec 64))) (! (=> (bvult g_j %s) (= (select %s g_j) (ite (bvult g_j %s) (select %s (bvadd (g_soff %s) g_j)) %s))) :pattern ((select %s g_j))))",
+			n, frArr, slen, sarr, s, srcAt("(bvsub g_j "+slen+")"), frArr))
 	}
 	// write both possibilities
 	stIn := st.clone()
@@ -411,7 +419,7 @@ func (fr *Frame) appendBuiltin(b *ssa.BasicBlock, c *ssa.CallCommon, args []Val,
 	res := sIte(inplace,
 		fmt.Sprintf("(g_mkslice (g_sarr %s) (g_soff %s) %s (g_scap %s))", s, s, n, s),
 		fmt.Sprintf("(g_mkslice %s (_ bv0 64) %s %s)", newRef, n, newCap))
-	return &Val{T: resT, S: vc.def("g_Slice", "app", res)}
+	return vc.def("g_Slice", "app", res)
 }
 
 func (fr *Frame) copyBuiltin(b *ssa.BasicBlock, c *ssa.CallCommon, args []Val, st *State, reach string, pos token.Pos, resT types.Type) *Val {
@@ -431,13 +439,6 @@ func (fr *Frame) copyBuiltin(b *ssa.BasicBlock, c *ssa.CallCommon, args []Val, s
 		srcAt = func(j string) string { return fmt.Sprintf("(select %s (bvadd (g_soff %s) %s))", sarr, s, j) }
 	}
 	n := vc.def(bvSort(64), "ncopy", sIte(app("bvslt", app("g_slen", d), slen), app("g_slen", d), slen))
-	darr := vc.def("(Array (_ BitVec 64) "+es+")", "cdst", vc.readCell(st, key, app("g_sarr", d)))
-	na := vc.fresh("(Array (_ BitVec 64) "+es+")", "copied")
-	vc.assume(fmt.Sprintf("(forall ((g_j (_ BitVec 64))) (! (=> (not (and (bvule (g_soff %s) g_j) (bvult g_j (bvadd (g_soff %s) %s)))) (= (select %s g_j) (select %s g_j))) :pattern ((select %s g_j))))", d, d, n, na, darr, na))
-	vc.assume(fmt.Sprintf("(forall ((g_j (_ BitVec 64))) (! (=> (bvult g_j %s) (= (select %s (bvadd (g_soff %s) g_j)) %s)) :pattern (%s)))", n, na, d, srcAt("g_j"), srcAt("g_j")))
-	alt := st.clone()
-	vc.writeCell(alt, key, app("g_sarr", d), na)
-	mg := vc.mergeStates([]string{app("bvsgt", n, bvConst(0, 64))}, []*State{alt, st})
-	*st = *mg
+	vc.copyInto(st, et, d, n, srcAt)
 	return &Val{T: resT, S: n}
 }
